@@ -261,7 +261,7 @@ prop("C13", [sel("fillshape"), sel("nth"), sel("layout", fn=r"(swap|<rule>)"), s
      "Swap/fill primitives, structural clauses: (R-GUARD) swap, swap_rows, swap_cols, row_pair_mut on the owned array, the mutable view and the provided defaults compare each index strictly with the right dimension (directly, via the ordered-swap idiom, or via nth(..).unwrap()); (R-UNITS) no row/column mix-up; (R-DUP) only swap primitives move elements. (R-LAYOUT) TooDee::swap addresses row*C+col for both cells (L-POS), both swap_rows overrides address [r1*S,+C) and [r2*S,+C) as polynomial identities after composing the nested slices (stride-aware for the view); (R-NTH) the provided swap_rows / row_pair_mut / swap that third-party implementors inherit address, through rows_mut().nth(a) followed by nth(k) (rows a and a+1+k), exactly the rows / cells named by their arguments on every path, row_pair_mut returning them in argument order; (R-GUARD) no normal return bypasses a bounds check; the layers the provided methods run on - RowsMut (R-CURSOR, R-OVF: nth(huge) must yield None so that unwrap panics), ColMut, rows_mut()/col_mut()/get_unchecked* of the three receivers (R-LAYOUT) and the mutable window constructors ('identically for owned arrays and views').")
 prop("C14", [sel("copyshape"), sel("nonzero", fn=r"(copy_|clone_from|CopyOps|<rule>)"), sel("guard", fn=r"copy_within"), sel("units", fn=r"(copy_|clone_from)"), sel("dup", fn=r"(copy_|clone_from|CopyOps)")] + L_ROWCUR() + L_VIEWS() + [sel("zero", fn=CTORS), sel_dyn(A_COPY)],
      "clauses only: guard/unit clauses of C14 - (R-COPYSHAPE) each of the eight copy functions compares the sizes with a diverging guard that dominates every write (or is one std slice copy of the whole buffer, which checks lengths) and transfers rows destination <- source from zip(rows_mut(), source rows); (R-GUARD) the six coordinates of copy_within are bounded against the dimension of their unit (directly or through the ordered source rectangle); (R-ARITH) no `+` on a caller coordinate before its guard; (R-UNITS) row offsets index rows, column offsets slice rows; (R-DUP) bitwise copies only under T: Copy via slice methods; (R-NONZERO) no chunks*/division sees a possibly-zero column count (empty destinations are valid shapes); the rows transferred come from Rows / RowsMut started by rows()/rows_mut() of source and destination (R-CURSOR, R-LAYOUT), over windows built by the view constructors.",
-     declined=["overlap direction of copy_within and row-major equality of the result (iteration order vs values)"])
+     declined=["row-major equality of the result as values; for overlapping rectangles the row ORDER is decided (overlap-order clause), the absence of any other read-after-write hazard inside one row copy is std's slice::copy_within / copy_from_slice contract"])
 prop("C15", [sel("flipshape"), sel("lockstep"), sel("noshift"), sel("layout", fn=r"get_unchecked_row_mut|<rule>"), sel("guard", fn=r"translate"), sel("units", fn=r"(translate|flip)"), sel("dup", fn=r"(Translate|translate|flip)")] + L_ROWCUR("RowsMut") + L_VIEWS(True) + [sel("zero", fn=CTORS), sel_dyn(A_TRANS)],
      "clauses only: guard and permutation clauses of C15 - (R-FLIPSHAPE) flip_rows swaps next() with next_back() of one rows_mut() cursor, flip_cols reverses every row; mid <= (num_cols, num_rows) with the right units; translate.rs moves elements only with swap_with_slice / rotate_left / reverse on rows obtained from the trait (no element lost or duplicated); the unchecked row getters it relies on address row*stride .. +num_cols on every implementor (R-LAYOUT L-ROW); no cross-axis comparison of a mid-point with the other dimension (R-UNITS u1, also for equalities); (R-LOCKSTEP) in the cycle-leader loop of translate_with_wrap the row cursor and the running column offset are induction variables of one loop that are advanced on exactly the same iterations and re-initialised at the same loop depth (a necessary condition of 'row k of a cycle is rotated by k*col_mid'); the layers both algorithms run on: RowsMut and rows_mut() (R-CURSOR, R-LAYOUT) and the mutable window constructors ('on any array or view').",
      declined=["the position formula new[(c,r)] == old[((c+mc)%C,(r+mr)%R)] and index validity inside the cycle-leader loop (number theory, DESIGN 2.2): R-LOCKSTEP decides only that the two cursors move together, not that the walk visits every row once"])
@@ -296,4 +296,4 @@ for _pid in ("C05", "C07", "C11", "C12", "C01"):
 PROPS["C20"]["explanation"] += " Hand-written Clone / PartialEq / Hash are decided structurally: clone builds every field from the same field, an overridden clone_from writes all three fields (or *self) on every path, eq looks at all three fields of both operands, hash feeds nothing that eq does not compare."
 for _pid in ("C06", "C11", "C01"):
     PROPS[_pid]["explanation"] += " R-ARITH on TooDee::reserve / reserve_exact: the requested capacity (an iterator's claimed length) enters no plain or wrapping sum, so Vec's capacity-overflow panic is reached before insert_* lower the length."
-PROPS["C14"]["explanation"] += " copy_within placement identities: for every row_pair_mut(s, d) the distance d - s equals dest.1 - src.0.1, the per-row copy takes columns [src.0.0, src.1.0) to [dest.0, dest.0 + width), the same-row case is row.copy_within(src.0.0..src.1.0, dest.0) - as polynomial identities over the parameters; an endpoint compared strictly with its bound (an empty rectangle rejected) is reported as over-strict."
+PROPS["C14"]["explanation"] += " Overlap order: for every row_pair_mut(s, d) inside a counted loop the walk is classified ascending / descending from the coefficient of the loop item in s, and the branch facts dominating the computation of s must justify it (ascending: src.0.1 >= dest.1 or dest.1 >= src.1.1; descending: src.0.1 <= dest.1 or dest.1 + height <= src.0.1). copy_within placement identities: for every row_pair_mut(s, d) the distance d - s equals dest.1 - src.0.1, the per-row copy takes columns [src.0.0, src.1.0) to [dest.0, dest.0 + width), the same-row case is row.copy_within(src.0.0..src.1.0, dest.0) - as polynomial identities over the parameters; an endpoint compared strictly with its bound (an empty rectangle rejected) is reported as over-strict."
